@@ -64,8 +64,11 @@ def cases(draw):
         decls.append({'name': draw(st.sampled_from(['k1', 'k1', 'k2'])), 'match': p, 'use': use})
     lookups = []
     for _ in range(draw(st.integers(3, 10))):
-        lookups.append({'doc': draw(st.integers(0, ndocs - 1)), 'name': draw(st.sampled_from(['k1', 'k1', 'k2'])),
-                        'value': draw(st.sampled_from(VALUES + VALUES + NSVALUES))})
+        lk = {'doc': draw(st.integers(0, ndocs - 1)), 'name': draw(st.sampled_from(['k1', 'k1', 'k2'])),
+              'value': draw(st.sampled_from(VALUES + VALUES + NSVALUES))}
+        if draw(st.integers(0, 4)) >= 2:
+            lk['pick'] = draw(st.integers(0, 50))   # resolved in check(): one of the use values that actually occur
+        lookups.append(lk)
     return {'docs': docs, 'decls': decls, 'lookups': lookups}
 
 
@@ -93,7 +96,8 @@ def node_id(n):
 
 
 def esc(s):
-    return s.replace('&', '&amp;').replace('<', '&lt;').replace('"', '&quot;')
+    return (s.replace('&', '&amp;').replace('<', '&lt;').replace('"', '&quot;')
+            .replace('\n', '&#10;').replace('\t', '&#9;').replace('\r', '&#13;'))
 
 
 def stylesheet(case, order):
@@ -109,6 +113,30 @@ def stylesheet(case, order):
                      % (ctxsel, i, lk['name'], esc(lk['value']), IDEXPR))
     parts.append('</xsl:template></xsl:stylesheet>')
     return ''.join(parts)
+
+
+def resolve_picks(case, mdocs):
+    """a lookup with 'pick' uses the pick-th (sorted) of the use values occurring in its document for its key name"""
+    ns = {'p': 'urn:p', 'q': 'urn:q'}
+    cache = {}
+    for lk in case['lookups']:
+        if 'pick' not in lk:
+            continue
+        key = (lk['doc'], lk['name'])
+        if key not in cache:
+            vals = set()
+            doc = mdocs[lk['doc']]
+            for n in doc.nodes(attrs=True, ns=False):
+                for d in case['decls']:
+                    if d['name'] == lk['name'] and ref_xpath.pattern_matches(d['_pat'], n, ref_xpath.Context(n, 1, 1, {}, ns, {})):
+                        u = ref_xpath.evaluate(d['_use'], ref_xpath.Context(n, 1, 1, {}, ns, {}))
+                        vals |= {x.string_value() for x in u} if isinstance(u, list) else {ref_xpath.to_string(u)}
+            cache[key] = sorted(v for v in vals if "'" not in v or '"' not in v)
+        vals = cache[key]
+        if vals:
+            v = vals[lk['pick'] % len(vals)]
+            lk['value'] = ('"%s"' % v) if "'" in v else ("'%s'" % v)
+        lk.pop('pick')
 
 
 def expected(case, mdocs, i):
@@ -153,6 +181,7 @@ def check(ctx, case):
     except (ValueError, ref_xpath.XPathSyntaxError):
         return None
     try:
+        resolve_picks(case, mdocs)
         exp = [expected(case, mdocs, i) for i in range(len(case['lookups']))]
     except (ref_xpath.XPathStaticError, ref_xpath.XPathDynamicError):
         ctx.counters['ref:error'] += 1
@@ -204,4 +233,7 @@ def signature(case, detail):
         kinds = ('extra' if detail.get('extra') else '') + ('missing' if detail.get('missing') else '')
         if any(x.startswith('|||') for x in detail.get('extra', [])):
             kinds += ':root'
-    return '%s|%s|%s' % (detail['what'], kinds, 'use-position' if detail.get('uses_pos') else '')
+    feat = 'use-position' if detail.get('uses_pos') else ''
+    if any('//' in d.get('match', '') and re.search(r'[\w)\]*]\s*/\s*[\w@*(:\s]+//', d.get('match', '')) for d in detail.get('decls', [])):
+        feat += 'multi-step-dslash'
+    return '%s|%s|%s' % (detail['what'], kinds, feat)
